@@ -1,10 +1,10 @@
-#!/bin/sh
+#!/bin/bash
 # tools/harmless_matrix.sh : property-preserving edits (harmless/<id>/patch.diff) x every claimed check; none may report a VIOLATION
 cd /verif
 props=$(python3 -c "import json;print(' '.join(c['property_id'] for c in json.load(open('MANIFEST.json'))['checks']))")
 mkdir -p build/hm
 : > build/harmless_matrix.tsv
-for id in $(cd harmless && ls -d */ | tr -d /); do
+for id in ${@:-$(cd harmless && ls -d */ | tr -d /)}; do
   git -C /repo apply /verif/harmless/$id/patch.diff || { echo "$id	patch-does-not-apply" >> build/harmless_matrix.tsv; continue; }
   (cd /repo && CARGO_TARGET_DIR=/var/tmp/harm-target CARGO_NET_OFFLINE=true cargo test --offline --lib -q >/var/tmp/harm-$id.log 2>&1); tst=$?
   python3 -c "import sys; sys.path.insert(0,'vx'); import replay; replay.build()" >/dev/null 2>&1
